@@ -15,11 +15,11 @@ require (
 	github.com/karino2/folang/pkg/slice v0.0.0-20250130153521-e095d25781c4
 	github.com/karino2/folang/pkg/strings v0.0.0-00010101000000-000000000000
 	github.com/karino2/folang/pkg/sys v0.0.0-00010101000000-000000000000
+	github.com/sergi/go-diff v1.3.1
 )
 
 require (
 	github.com/google/go-cmp v0.6.0 // indirect
-	github.com/sergi/go-diff v1.3.1 // indirect
 	golang.org/x/exp v0.0.0-20250128182459-e0ece0dbea4c // indirect
 )
 
